@@ -69,9 +69,33 @@ def subs_guard(tree: Tree, cls: ClassInfo) -> tuple[bool, str]:
                         isinstance(s, ast.Return) and isinstance(s.value, ast.Name) and s.value.id == params[0] for s in ast.walk(node) if s in _direct_stmts(node.body)
                     )
                     if mentions_bound and returns_self:
+                        wider = _guard_wider_than_own(tree, c, m, node.test)
+                        if wider:
+                            return False, f"{c.name}.{name}: `if {unparse(node.test)[:60]}: return self` also refuses symbols that are NOT bound by this sum ({wider}): their free occurrences in the summand are never substituted"
                         return True, f"{c.name}.{name}: `if {unparse(node.test)[:60]}: return self`"
             return False, f"{c.name}.{name} never returns self for a bound symbol"
     return False, "no _eval_subs/_subs/subs override: Basic.subs rewrites the bound index symbols"
+
+
+def _guard_wider_than_own(tree: Tree, cls: ClassInfo, m: FuncInfo, test: ast.AST) -> str | None:
+    """The substitution guard must refuse exactly the symbols this instance binds (what
+    free_symbols subtracts).  A guard that consults a property / helper which also collects the
+    indices of sums nested in the summand is wider: `k` bound by an inner sum is then treated as
+    bound in the whole outer summand, where it may occur free."""
+    for n in ast.walk(test):
+        if isinstance(n, ast.Attribute) and isinstance(n.value, ast.Name) and n.value.id == m.params[0] and n.attr not in {"indices", "limits", "variables"}:
+            prop = None
+            for c in tree.mro(cls):
+                if n.attr in c.methods:
+                    prop = c.methods[n.attr]
+                    break
+            if prop is None:
+                continue
+            other = sorted({a.attr for a in walk_function(prop.node) if isinstance(a, ast.Attribute) and isinstance(a.value, ast.Name) and a.value.id == prop.params[0]
+                            and a.attr not in {"indices", "limits", "variables"}})
+            if other:
+                return f"`{n.attr}` also reads self.{', self.'.join(other)}"
+    return None
 
 
 def _direct_stmts(body):
